@@ -328,6 +328,40 @@ def _field_index_reads(b, du, field):
     return out
 
 
+def _idx_local(e):
+    return e["idx"] if isinstance(e, dict) and "idx" in e else None
+
+
+def _symbolic_partner(b, du):
+    """True / False when both arrays are indexed by locals and the relation can be read off; None otherwise"""
+    pa_l = hs_l = None
+    for bb, i, st in b.assigns():
+        rv = st["rv"]
+        pl = rv.get("p") if rv["k"] == "ref" else None
+        if not pl:
+            continue
+        pr = pl["p"]
+        for k, e in enumerate(pr):
+            if isinstance(e, dict) and e.get("name") == "proxy_addresses" and k + 1 < len(pr) and _idx_local(pr[k + 1]) is not None:
+                pa_l = _idx_local(pr[k + 1])
+            if isinstance(e, dict) and e.get("name") == "hosts" and k + 1 < len(pr) and _idx_local(pr[k + 1]) is not None:
+                hs_l = _idx_local(pr[k + 1])
+    if pa_l is None or hs_l is None:
+        return None
+    from ..lib import producers
+    pp = producers(b, du, {"cp": {"l": pa_l, "p": []}})
+    hp = producers(b, du, {"cp": {"l": hs_l, "p": []}})
+    # hosts index = 1 - (the proxy_addresses index): a Sub whose constant is 1 and whose other operand shares a producer
+    sl = du.slice_operand({"cp": {"l": hs_l, "p": []}})
+    is_sub = bool(sl.binops & {"Sub", "SubWithOverflow"}) and 1 in sl.const_ints()
+    same_var = bool({l for l in sl.locals if b.local_name(l)} & {l for l in du.slice_operand({"cp": {"l": pa_l, "p": []}}).locals if b.local_name(l)})
+    if is_sub and same_var:
+        return True
+    if same_var and not is_sub:
+        return False
+    return None
+
+
 def _partner_index(ctx):
     """the partner of the proxy at position i of a chunk is the proxy at position 1 - i: in every helper that looks a proxy
     up by proxy_addresses[i] and answers with hosts[j], i != j"""
@@ -342,7 +376,13 @@ def _partner_index(ctx):
     dom = cfg.dominators(b)
     pa = _field_index_reads(b, du, "proxy_addresses")
     hs = _field_index_reads(b, du, "hosts")
-    if not (ctx.floor("C12.D3", "proxy_addresses[const] reads in get_partner_host", len(pa), 2) and ctx.floor("C12.D3", "hosts[const] reads in get_partner_host", len(hs), 2)):
+    if len(pa) < 2 or len(hs) < 2:
+        # the loop spelling: proxy_addresses[i] paired with hosts[1 - i]
+        sym = _symbolic_partner(b, du)
+        if sym is None:
+            ctx.info("C12.D3", "partner-index", "get_partner_host does not use the constant-index or the `1 - i` spelling: pairing not decided")
+        else:
+            ctx.check(sym, "C12.D3", "partner-index:symbolic", site(b), ok="proxy_addresses[i] is answered with hosts[1 - i]", bad="the host index is not `1 - i` of the proxy_addresses index: the proxy's own host is returned as its partner's")
         return
     seen = set()
     for hb, hl, j in hs:
